@@ -11,8 +11,9 @@
 (*                 off: has an offset, reg: 0 default table / 1 code units]  *)
 (*   nprefix    = number of SI prefixes (a prefix is an index 1..nprefix)    *)
 (*   em[i]      = [from, to: atoms, fdim, tdim] (unit_object.em_conversions) *)
-(*   systems[s] = [base: 9 x <<prefix, atom>> (<<0,0>> = None), decl: seq of *)
-(*                 [dim, x], reg, coef, short]                               *)
+(*   systems[s] = [base: 9 x <<prefix, atom>> (<<0,0>> = None), bcoef: 9 x   *)
+(*                 <<n, d>> numeric coefficient of each base unit, decl: seq *)
+(*                 of [dim, x], reg, coef, short]                            *)
 (*   defaults   = default base units of UnitSystem.__init__                  *)
 (* RULES live here: what the system unit of a dimension is, which route a    *)
 (* unit takes, what "inside the system" means, EM counterpart pairing,       *)
@@ -20,7 +21,7 @@
 (* units, independence of the read history.                                  *)
 (*                                                                           *)
 (* A unit expression is a set of triples <<prefix, atom, 12*exponent>>.      *)
-EXTENDS Dim, FiniteSets, TLC, Json, IOUtils
+EXTENDS Dim, Rational, FiniteSets, TLC, Json, IOUtils
 
 D == JsonDeserialize(IOEnv.C10DATA)
 Atoms == D.atoms
@@ -54,6 +55,16 @@ DeclOf(S, d) == LET i == CHOOSE i \in DOMAIN S.decl : S.decl[i].dim = d /\ \A j 
 BaseAtoms(S) == {S.base[i] : i \in {j \in 1..NDim : S.base[j] # NoUnit}}
 \* _get_system_unit_string: every base dimension of the key is replaced by the base unit, same power
 Factor(S, d) == {<<S.base[i][1], S.base[i][2], d[i]>> : i \in {j \in 1..NDim : d[j] # 0}}
+\* numeric coefficient of a unit expressed in S: every base unit enters with its own coefficient (a base unit given as
+\* the quantity 2*kpc counts as 2 kpc), raised to the same power; atoms that are not base units of S contribute 1.
+\* Half-integer powers make the coefficient irrational, so it is compared raised to CPow (1, 2; 12 = not compared).
+CPow(x) == IF \A t \in x : t[3] % 12 = 0 THEN 1 ELSE IF \A t \in x : t[3] % 6 = 0 THEN 2 ELSE 12
+SlotOf(S, pa) == CHOOSE i \in 1..NDim : S.base[i] = pa
+RECURSIVE XCoef(_, _, _)
+XCoef(S, x, k) == IF x = {} THEN ROne
+                  ELSE LET t == CHOOSE t \in x : TRUE
+                           c == IF <<t[1], t[2]>> \in BaseAtoms(S) THEN RPow(S.bcoef[SlotOf(S, <<t[1], t[2]>>)], (k * t[3]) \div 12) ELSE ROne
+                       IN RMul(c, XCoef(S, x \ {t}, k))
 \* UnitSystem.__getitem__ : declared (or memoised) entry, else MissingMKSCurrent, else synthesis
 SysUnit(S, d) == IF d \in DeclDims(S) THEN [k |-> "unit", x |-> DeclOf(S, d)]
                  ELSE IF d[CUR] # 0 /\ ~HasCur(S) THEN [k |-> "nocur", x |-> {}]
@@ -121,6 +132,10 @@ DeclAtoms(S, d) == IF d \in DeclDims(S) THEN XAtoms(DeclOf(S, d)) ELSE {}
 \* "expressed only in S's base units or in units S declares for that dimension"
 Inside(S, x, d) == /\ Known(x)
                    /\ XAtoms(x) \subseteq (BaseAtoms(S) \cup DeclAtoms(S, d))
+\* ... including the scale: a result written in base units carries exactly the coefficient those base units imply,
+\* a result that is the declared unit carries none.  rc = observed coefficient ** CPow as a rational.
+ImpliedCoef(S, x, d) == IF d \in DeclDims(S) /\ DeclOf(S, d) = x THEN ROne ELSE XCoef(S, x, CPow(x))
+ScaleOk(S, x, d, rc, k) == CPow(x) > 2 \/ (k = CPow(x) /\ Known(x) /\ rc = ImpliedCoef(S, x, d))
 \* "the same dimension (or the documented CGS/SI electromagnetic counterpart)"
 DimOk(din, dout) == dout = din \/ <<din, dout>> \in EMPairs
 
@@ -131,10 +146,10 @@ Clauses(S, x, o) ==
   IF o.k = "raise" THEN (IF o.exc = "UnitsNotReducible" THEN {} ELSE {"RaisesOnlyUnitsNotReducible"})
                         \cup (IF o.gbe.k = "ok" THEN {"AgreesWithBaseEquivalent"} ELSE {})
   ELSE IF o.k # "ok" THEN {}
-  ELSE (IF Inside(S, ox, o.dim) /\ (o.coef => S.coef) THEN {} ELSE {"Inside"})
+  ELSE (IF Inside(S, ox, o.dim) /\ ScaleOk(S, ox, o.dim, o.coefr, o.cpow) THEN {} ELSE {"Inside"})
        \cup (IF Known(ox) /\ DimOk(XDim(x), o.dim) /\ XDim(ox) = o.dim THEN {} ELSE {"Dimension"})
        \cup (IF o.back THEN {} ELSE {"ConvertsBack"})
        \cup (IF o.si THEN {} ELSE {"SameQuantity"})
-       \cup (IF o.gbe.k = "ok" /\ ToSet(o.gbe.x) = ox THEN {} ELSE {"AgreesWithBaseEquivalent"})
-       \cup (IF o.twice.k = "ok" /\ ToSet(o.twice.x) = ox /\ o.twice.same THEN {} ELSE {"Idempotent"})
+       \cup (IF o.gbe.k = "ok" /\ ToSet(o.gbe.x) = ox /\ o.gbe.coefr = o.coefr THEN {} ELSE {"AgreesWithBaseEquivalent"})
+       \cup (IF o.twice.k = "ok" /\ ToSet(o.twice.x) = ox /\ o.twice.coefr = o.coefr /\ o.twice.same THEN {} ELSE {"Idempotent"})
 =============================================================================
